@@ -217,6 +217,11 @@ func runC09(w *World, r *Report) {
 	r.Rule("C09.guarded-by", "a field of a struct with a sync.Mutex that is accessed with the mutex held somewhere (and written somewhere) is accessed with it held everywhere outside constructors", 10)
 	ruleGuardedBy(w, r, "C09.guarded-by", guardedByExceptions, "compose", "schema", "internal", "callbacks", "flow", "components", "utils")
 
+	r.Rule("C09.atomic-consistent", "a field that is updated through sync/atomic somewhere is accessed only through sync/atomic", 1)
+	if n := ruleAtomicConsistent(w, r, "C09.atomic-consistent", "compose", "schema", "internal", "callbacks", "flow", "components", "utils"); n == 0 {
+		undecidedf("C09.atomic-consistent: no field accessed through sync/atomic found")
+	}
+
 	r.Rule("C09.append-alias", "append on a slice held in a shared object is stored back to the same field or starts from a fresh slice", 1)
 	armedOwners := map[*types.Named]bool{}
 	for t := range compiled {
